@@ -58,6 +58,12 @@ func (c *FnCtx) coerce(st *State, t Term, to types.Type) Term {
 	if t.S == "nilV" && t.Sort.Kind == KV {
 		return Term{S: d.zero(so), Sort: so, T: to}
 	}
+	if t.Sort.Kind == KV && so.Kind == KStruct && t.T != nil {
+		if pt, ok := t.T.(*types.Pointer); ok && types.Identical(pt.Elem(), to) {
+			// an inline-object field read where the struct VALUE is wanted: copy the sub-object's fields out
+			return c.derefValue(st, t, token.NoPos)
+		}
+	}
 	if so.Kind == KV {
 		// box a non-V value
 		bn := "box." + sanitize(t.Sort.SMT())
@@ -316,6 +322,10 @@ func (c *FnCtx) selectPath(st *State, base Term, idx []int, pos token.Pos) Term 
 		f := stt.Field(i)
 		if isPtr {
 			c.nilCheck(st, cur, pos, f.Name())
+			if c.e.isInlineObj(n, f) {
+				cur = c.inlineRef(st, n, f, cur)
+				continue
+			}
 			arr := c.fieldArr(st, n, f)
 			cur = Term{S: sSel(arr.S, cur.S), Sort: arr.Sort.Elem, T: f.Type()}
 			c.readFacts(st, cur)
@@ -380,7 +390,14 @@ func (c *FnCtx) addressOf(st *State, x ast.Expr) Term {
 		vals := c.structLitFields(st, y, stt)
 		r := c.newRef(st, n.Obj().Name())
 		ref := Term{S: r, Sort: sV, T: types.NewPointer(t)}
+		c.tagRef(st, ref)
 		for i := 0; i < stt.NumFields(); i++ {
+			if c.e.isInlineObj(n, stt.Field(i)) {
+				sub := c.inlineRef(st, n, stt.Field(i), ref)
+				c.allocInline(st, sub)
+				c.writeStructTo(st, sub, vals[i], x.Pos(), true)
+				continue
+			}
 			c.writeField(st, ref, n, stt.Field(i), vals[i], x.Pos(), true)
 		}
 		return ref
@@ -389,6 +406,11 @@ func (c *FnCtx) addressOf(st *State, x ast.Expr) Term {
 	case *ast.SelectorExpr:
 		// &x.f : an opaque pointer determined by the object and the field; accesses through it are not modelled
 		if sel, ok := c.info.Selections[y]; ok && sel.Kind() == types.FieldVal {
+			if v := c.evalExpr(st, y); v.Sort.Kind == KV && v.T != nil {
+				if pt, ok := v.T.(*types.Pointer); ok && types.Identical(pt.Elem(), c.typeOf(y)) {
+					return v // inline-object field: its value term already is the sub-object's reference
+				}
+			}
 			base := c.evalExpr(st, y.X)
 			if base.Sort.Kind == KV {
 				fn := "fieldaddr." + sanitize(y.Sel.Name)
@@ -408,9 +430,17 @@ func (c *FnCtx) addressOf(st *State, x ast.Expr) Term {
 					cur.Cell = false
 					return cur
 				}
+				if c.escaping[v] && cur.Sort.Kind == KV {
+					// a struct local that lives on the heap because its address is taken (escape.go): &x is its reference
+					if nn, _, isPtr := derefNamedStruct(v.Type()); nn != nil && !isPtr && c.e.d.modelled(nn) {
+						cur.T = types.NewPointer(v.Type())
+						return cur
+					}
+				}
 				if nn, _, isPtr := derefNamedStruct(v.Type()); nn == nil || isPtr || !c.e.d.modelled(nn) {
 					pt := types.NewPointer(v.Type())
 					ref := Term{S: c.newRef(st, "cell_"+v.Name()), Sort: sV, T: pt}
+					c.tagRef(st, ref)
 					key := "P:" + typeShortName(v.Type())
 					arr := c.heapGet(st, key, arraySort(sV, c.e.d.sortOf(v.Type())))
 					c.heapSet(st, key, Term{S: sSto(arr.S, ref.S, cur.S), Sort: arr.Sort})
@@ -494,6 +524,7 @@ func (c *FnCtx) compositeLit(st *State, lit *ast.CompositeLit) Term {
 	case *types.Map:
 		r := c.newRef(st, "map")
 		m := Term{S: r, Sort: sV, T: t}
+		c.tagRef(st, m)
 		c.mapInit(st, m, u)
 		for _, el := range lit.Elts {
 			kv := el.(*ast.KeyValueExpr)
@@ -508,6 +539,11 @@ func (c *FnCtx) compositeLit(st *State, lit *ast.CompositeLit) Term {
 
 func (c *FnCtx) compositeLitTyped(st *State, lit *ast.CompositeLit, t types.Type) Term {
 	// elided type in nested literal
+	if pt, ok := t.Underlying().(*types.Pointer); ok {
+		// []*T{{...}}: the element is &T{...}
+		c.info.Types[lit] = types.TypeAndValue{Type: pt.Elem()}
+		return c.addressOf(st, lit)
+	}
 	c.info.Types[lit] = types.TypeAndValue{Type: t}
 	return c.compositeLit(st, lit)
 }
